@@ -427,7 +427,7 @@ func runC13(cfg Config, args []string) int {
 		fmt.Printf("reproduced in %d of 20 executions\n", hits)
 		return code
 	}
-	nFix, nSyn := cfg.N(6, 16), cfg.N(34, 400)
+	nFix, nSyn := cfg.N(6, 16), cfg.N(50, 400)
 	nctx := 8
 	if cfg.Tier == "thorough" {
 		nctx = 24
